@@ -94,15 +94,24 @@ class Tx:
   def check_kernel(self):
     """The kernel object must be built in __init__ exactly as the helpers assume."""
     want = {'abc': ('ABCCost', ['a', 'b', 'c', 'lbounds', 'hbounds']), 'hl': ('HLQuadraticCost', ['p_l', 'p_h', 'lbounds', 'hbounds'])}[self.info['kernel']]
+    def ok_call(v):
+      return isinstance(v, ast.Call) and isinstance(v.func, ast.Name) and v.func.id == want[0] and not v.keywords and \
+        [a.attr if isinstance(a, ast.Attribute) and isinstance(a.value, ast.Name) and a.value.id == 'self' else None for a in v.args] == want[1]
+    # (a) a read-only property `_cost_fn` returning the kernel object built from the live settings
+    for n in self.clsnode.body:
+      if isinstance(n, ast.FunctionDef) and n.name == '_cost_fn' and any(isinstance(d, ast.Name) and d.id == 'property' for d in n.decorator_list):
+        body = [st for st in n.body if not (isinstance(st, ast.Expr) and isinstance(st.value, ast.Constant) and isinstance(st.value.value, str))]
+        if len(body) == 1 and isinstance(body[0], ast.Return) and ok_call(body[0].value):
+          return
+        U(n, '_cost_fn property is not `return %s(%s)`' % (want[0], ', '.join('self.' + x for x in want[1])))
+    # (b) assigned once in __init__
     init = self.method('__init__')
     for st in init.body:
       if isinstance(st, ast.Assign) and len(st.targets) == 1 and isinstance(st.targets[0], ast.Attribute) and st.targets[0].attr == '_cost_fn':
-        v = st.value
-        if isinstance(v, ast.Call) and isinstance(v.func, ast.Name) and v.func.id == want[0] and not v.keywords and \
-           [a.attr if isinstance(a, ast.Attribute) and isinstance(a.value, ast.Name) and a.value.id == 'self' else None for a in v.args] == want[1]:
+        if ok_call(st.value):
           return
         U(st, '_cost_fn is not %s(%s)' % (want[0], ', '.join('self.' + x for x in want[1])))
-    U(init, '_cost_fn not assigned in __init__')
+    U(init, '_cost_fn neither a property nor assigned in __init__')
 
   # ---- expressions -> (term, type)
   def expr(self, e, env):
